@@ -94,6 +94,15 @@ def Comment.tokenLike (c : Comment) : Bool :=
   | .line => !containsNL c.text
   | .block _ _ => true
 
+def Trivia.tokenLike : Trivia → Bool
+  | .comment c => c.tokenLike
+  | _ => true
+
+/-- every comment of the list is token-like (decidable) -/
+def TokenLikeTrivia (ts : List Trivia) : Prop := ∀ t ∈ ts, t.tokenLike = true
+
+instance (ts : List Trivia) : Decidable (TokenLikeTrivia ts) := by unfold TokenLikeTrivia; exact inferInstance
+
 def Trivia.isComment : Trivia → Bool
   | .comment _ => true
   | _ => false
